@@ -176,8 +176,10 @@ def label_clauses(ctx, st, pt, p):
     for ion in ('p', rng.choice(['b', 'y', 'c', 'z'])):
         for mono in (True, False):
             on_mods = rng.random() < 0.5
-            if not mono and any(not m.avg_consistent for m in p.all_mods()):
-                continue   # 4 S-bearing monosaccharide rows: tabulated average disagrees with their own composition
+            if not mono and any((not m.avg_consistent) or (m.named and not (m.comp is not None and set(
+                    atoms.base_element(x) for x in m.comp) <= {'C', 'H', 'N', 'O', 'P', 'S'})) for m in p.all_mods()):
+                continue   # average mode: vocabulary rows made of C,H,N,O,P,S whose tabulated average agrees with
+                #            their composition (as in C03: metals use other standard weights upstream)
             if ion == 'p':
                 charge = 0
             else:
